@@ -57,6 +57,7 @@ type FuncContract struct {
 	IfaceType  types.Type // for iface refinements
 	ParamNames []string   // interface method parameter names
 	Verify     []string   // properties under which support obligations are checked explicitly
+	DirectRead bool       // may call Read on the user's source directly (accounts for short reads)
 }
 
 type Pred struct {
@@ -108,6 +109,8 @@ func ghostSort(s string) string {
 		return "Str"
 	case "slice":
 		return "Slice"
+	case "iface":
+		return "Iface"
 	}
 	if strings.HasPrefix(s, "array<") && strings.HasSuffix(s, ">") {
 		return "(Array Int " + ghostSort(s[6:len(s)-1]) + ")"
@@ -129,7 +132,7 @@ func (db *DB) loadContractFile(path, pkgPath string) error {
 	keywords := map[string]bool{"func": true, "loop": true, "mode": true, "requires": true, "ensures": true, "invariant": true,
 		"modifies": true, "safety": true, "trusted": true, "ghost-entry": true, "pred": true, "ghost": true, "template": true,
 		"end": true, "iface": true, "functype": true, "decreases": true, "inline": true, "specfn": true, "axiom": true,
-		"split": true, "verify": true, "free-ensures": true, "free-requires": true, "lemma": true, "pure": true, "free-invariant": true}
+		"split": true, "verify": true, "direct-read": true, "ghost-exit": true, "free-ensures": true, "free-requires": true, "lemma": true, "pure": true, "free-invariant": true}
 	for _, l := range strings.Split(string(raw), "\n") {
 		t := strings.TrimSpace(l)
 		if isGo {
@@ -272,6 +275,8 @@ func (db *DB) loadContractFile(path, pkgPath string) error {
 			cur.Split = append(cur.Split, rest)
 		case "verify":
 			cur.Verify = append(cur.Verify, tags...)
+		case "direct-read":
+			cur.DirectRead = true
 		case "safety":
 			cur.Safety = append(cur.Safety, tags...)
 			cur.HasSafety = true
